@@ -1,4 +1,5 @@
 """C19 -- generated protocol objects are immutable snapshots (engine C, fully)."""
+from ..core import AnalysisError
 from ..genabs import lattice, skel
 
 
@@ -20,6 +21,43 @@ def analyse(fam, shape, placement, outcomes):
     return out
 
 
+class _FileSkeleton:
+    def __init__(self, text):
+        import ast
+        self._tree = ast.parse(text)
+
+    def tree(self):
+        return self._tree
+
+
+def packets(rep, index):
+    """The lattice objects are structs; packets add family()/action()/write() around the same body.  The S-immut rule
+    is applied to every class of every file the abstractly executed generator writes for the 7-directory tree."""
+    from ..genabs.driver import Session, run_program
+    from .c18 import program_tree
+    n = 0
+    for o in run_program(Session(index), program_tree, runs=1):
+        if o.rejected:
+            raise AnalysisError("C19: the generator rejects the reference tree (%s at %s)" % (o.exc, o.exc_site))
+        for f in o.value[0].files:
+            if "class " not in f["content"]:
+                continue
+            try:
+                sk = _FileSkeleton(f["content"])
+            except SyntaxError:
+                continue  # C18.Q1's business
+            if not any(True for _ in skel.classes_of(sk.tree())):
+                continue
+            if "(IntEnum" in f["content"]:
+                continue
+            n += 1
+            fnd = skel.s_immut(sk)
+            rep.ob("C19.S1 fields-private-getter-only-tuple-copied", "file %s of the 7-directory tree path[%s]" % (f["path"], o.path()), not fnd,
+                   "; ".join("%s: %s" % (w, d) for _, w, d in fnd[:3]) or "every class of the file passes S-immut")
+    rep.count("program files with classes", n)
+    rep.floor("program files with classes", 8)
+
+
 def _gen(detail):
     import re
     return re.sub(r"h_\w+", "<name>", detail)[:80]
@@ -37,6 +75,7 @@ def run(rep, index):
     for k, v in stats.items():
         rep.count("lattice " + k, v)
     rep.floor("lattice accepted", 300)
+    packets(rep, index)
     # blobs are the one field kind that is a mutable buffer: the runtime must neither alias what it reads
     # (deserialized instances) nor adopt what it is given to write (repeated serialization)
     from . import c05, c06, c09
